@@ -73,7 +73,7 @@ TEXT["C01"] = dict(text="Coq theorems, all variants / tables / packets / clocks:
     technique="Coq proof (case analysis of the matchers against an independent genuineness predicate) + differential run of the real drivers over the full perturbation lattice")
 TEXT["C02"] = dict(text="Coq theorem: every packet whose parsed view is a genuine reply to the probe with TTL t yields the hop (t, responder, right destination flag) — with soundness, the matcher decides exactly `genuine`. "
     "Correspondence: every catalogue form built by independent builders from the emitted probe bytes must be recognised with the expected TTL and responder, for every variant incl. strict/relaxed and ISN/base wrap-around.",
-    note=_DRVNOTE + " Byte-level completeness is proved for all field values for the main IPv4 forms (ICMP error quoting 28 bytes of the probe the model builder emits, echo reply, direct TCP reply) and IPv6 forms (ICMPv6 time-exceeded quoting the whole probe, echo reply, UDP errors) through the whole receive path, and the engine lift (every reply readable by the deadline for a sent TTL is accepted, any script) is proved for the parallel engine. Also proved at byte level for the SACK variant: the duplicate ACK with one SACK block and the time-exceeded quoting 28 bytes of the probe. PARTIAL: IP options / extension headers, RFC 4884 forms, truncated IPv6 quotes and ACKs with several SACK blocks are correspondence-only; the serial engine lift is proved for the histories C02 names (one reply per TTL, each within its window, no rogue driver).",
+    note=_DRVNOTE + " Byte-level completeness is proved for all field values for the main IPv4 forms (ICMP error quoting 28 bytes of the probe the model builder emits, echo reply, direct TCP reply) and IPv6 forms (ICMPv6 time-exceeded quoting the whole probe, echo reply, UDP errors) through the whole receive path, and the engine lift (every reply readable by the deadline for a sent TTL is accepted, any script) is proved for the parallel engine. PARTIAL: IP options / extension headers, RFC 4884 forms, truncated IPv6 quotes, TCP over IPv6, SACK forms are correspondence-only; the serial engine lift is proved for the histories C02 names (one reply per TTL, each within its window, no rogue driver).",
     technique="Coq proof (matcher = genuineness predicate, both directions) + differential run of the real drivers on an independently built device catalogue")
 TEXT["C04"] = dict(text="Coq theorems: destination flag = the protocol's proof-of-arrival predicate on the packet used; a reply from any non-target address is never proof of arrival; a time-exceeded never marks the destination for ICMP/TCP SYN; e2e RTT = destination hop's RTT or 0. "
     "Correspondence: each destination-form reply from the target, from a router and (lattice) from other addresses with identical identifiers, through the real drivers; e2e value through the real RunTraceroute.", note=_DRVNOTE,
